@@ -69,7 +69,7 @@ CHECKS['C05'] = {
              '(one min-plus step: lower bound over all allowed transitions + attained by the recorded predecessor), backtrack (follows the back-pointers). '
              'BOUNDED: force_align collapses to the labels with the brute-force minimum cost, fails iff no finite alignment / blank among labels; align_text '
              'positions increasing and most confident in block — on a finite grid of cost matrices (incl. +inf, ties, repeats, both blank positions). '
-             'The DP invariant of viterbi_align (act_cost = V(t,.)) is not yet proved.'),
+             'force_align / align_text themselves (composition, collapse of a valid state path to the labels) are bounded only.'),
     'note': 'Trusted: pyvc; A4 numba.jit = Python semantics; np.where(A != inf) modelled as two index arrays; brute-force oracle specs/viterbi.py.',
 }
 
